@@ -13,6 +13,9 @@ import VsgProofs.Lemmas.BaseCaseTok
 import VsgProofs.Lemmas.BaseCaseAscii
 import VsgProofs.Lemmas.BFull2Indent   -- wp2_bfull2
 import VsgProofs.Lemmas.BFull2IndentVar   -- wp2b_indent
+import VsgProofs.Lemmas.BFull2SelStable   -- wp2c_selstable
+import VsgModel.Generated.BFull2Rules   -- wp2c_selstable
+import VsgModel.Generated.ClassUids   -- wp2c_selstable
 namespace Vsgm.C10
 open Vsgm
 
@@ -325,6 +328,78 @@ example :
 end wp2b_indent
 
 /-! ### END wp2b_indent -/
+
+
+/-! ### BEGIN wp2c_selstable (token_indent: whole-rule idempotence for ALL 102 rules, no stability hypothesis) -/
+
+section wp2c_selstable
+open BFull2 TM TM.Lemmas
+
+/-- **`token_map.extract_start_end_indexes` only depends on the order of the positions**: it commutes with every
+    strictly monotone renaming (end positions listed ascending, as every list of the token map is) -/
+theorem bfull2_pairing_order_equivariant {φ : Nat → Nat} (hφ : SMono φ) (ss es : List Nat) (hs : es.Pairwise (· ≤ ·)) :
+    startEndIndexes (ss.map φ) (es.map φ) = ((startEndIndexes ss es).1.map φ, (startEndIndexes ss es).2.map φ) :=
+  startEndIndexes_map hφ ss es hs
+
+/-- the between / unless selection of a candidate is a function of the file WITHOUT its whitespace tokens (`emb` =
+    position in the file of the o-th non-whitespace token) -/
+theorem bfull2_indent_selection_ignores_whitespace (uid : Tok → Option Key) (P : Params) (hP : VarOk P) (h : List Tok) (o : Nat) :
+    posSel P (processTokens uid h) (emb uid h o) = posSel P (processTokens uid (nonws uid h)) o :=
+  posSel_emb uid P hP h o
+
+/-- the fix keeps the sequence of non-whitespace tokens, hence the selection: `SelStable` is a theorem -/
+theorem bfull2_indent_selStable (uid : Tok → Option Key) (P : Params) (ind : Oracle) (hcs : CsOk P.cs) (hs : StyleOk P)
+    (hu : UidOk uid P) (hP : VarOk P) (f : List Tok) (hb : ∀ t ∈ f, t.isBof = false) : SelStable uid P ind f :=
+  selStable uid P ind hcs hs hu hP f hb
+
+/-- **whole-rule idempotence of token_indent, all four extractors (102 rules)**: every token list without pseudo tokens,
+    every indent assignment, size, both documented styles; `CsOk` on `lTokens`, `VarOk` on the keys of the between /
+    unless pairs (absent or plain non-whitespace keys; both are table facts for every rule) -/
+theorem bfull2_indent_idem_all (r : RuleCfg) (uid : Tok → Option Key) (P : Params) (ind : Oracle) (f : List Tok)
+    (hf : r.fixable = true) (hcs : CsOk P.cs) (hs : StyleOk P) (hu : UidOk uid P) (hP : VarOk P)
+    (hb : ∀ t ∈ f, t.isBof = false) :
+    (sem uid P ind).analyze (ruleFix r (sem uid P ind) none f).1 = [] := by
+  rw [bfull2_ruleFix_eq r uid P ind f hf]
+  exact analyze_fixAll_all uid P ind hcs hs hu hP f hb
+
+/-- … and the second `Rule.fix` is the identity -/
+theorem bfull2_indent_second_fix_all (r : RuleCfg) (uid : Tok → Option Key) (P : Params) (ind : Oracle) (f : List Tok)
+    (hf : r.fixable = true) (hcs : CsOk P.cs) (hs : StyleOk P) (hu : UidOk uid P) (hP : VarOk P)
+    (hb : ∀ t ∈ f, t.isBof = false) :
+    ruleFix r (sem uid P ind) none (ruleFix r (sem uid P ind) none f).1 = ((ruleFix r (sem uid P ind) none f).1, false) := by
+  apply second_fix_identity
+  simp only [filterFixOnly]
+  exact bfull2_indent_idem_all r uid P ind f hf hcs hs hu hP hb
+
+/-- executable form of `KeyOk` / `VarOk` for the generated rows -/
+def keyOkB (u : Option Key) : Bool :=
+  match u with
+  | none => true
+  | some k => decide (k ≠ (kLogical, kLogical)) && decide (k ≠ commaKey) && decide (k ≠ openParenKey) && decide (k ≠ wsKey)
+
+theorem keyOkB_sound (u : Option Key) (h : keyOkB u = true) : KeyOk u := by
+  intro k hk
+  subst hk
+  simp only [keyOkB, Bool.and_eq_true, decide_eq_true_eq] at h
+  exact ⟨⟨h.1.1.1, h.1.1.2, h.1.2⟩, h.2⟩
+
+/-- **table fact, all 102 indent rules**: every key of a between / unless pair is a plain non-whitespace key -/
+theorem bfull2_indentRule_varOk :
+    ∀ r ∈ Gen.indentRuleTable,
+      keyOkB (Gen.classUidList.getD r.a none) = true ∧ keyOkB (Gen.classUidList.getD r.b none) = true ∧
+      r.unl.all (fun p => keyOkB (Gen.classUidList.getD p.1 none) && keyOkB (Gen.classUidList.getD p.2 none)) = true := by
+  decide +kernel
+
+/-- non-vacuity of `VarOk` (the `between` instance of the example above) -/
+def toyBetween : Params :=
+  { cs := [], style := [], size := 2, wsCls := 2,
+    variant := Variant.between ⟨some ("x", "open"), 4⟩ ⟨some ("x", "close"), 5⟩ false }
+
+example : VarOk toyBetween := ⟨keyOkB_sound _ (by decide), keyOkB_sound _ (by decide)⟩
+
+end wp2c_selstable
+
+/-! ### END wp2c_selstable -/
 
 
 end Vsgm.C10
